@@ -145,10 +145,33 @@ def _enum():
                     yield {"prog": prog, "runs": 2, "flavour": "ext"}
 
 
+def _enum_double_patch():
+    """The same attribute patched twice, with cleanups that read it registered before, between and after."""
+    for obj in (0, 2):
+        for attr in ("x", "nonev") + (("missing",) if obj == 0 else ()):
+            for where in ("setUp_post", "body"):
+                for fault in (None, "error", "kbi"):
+                    ids = itertools.count(1)
+                    rd = lambda: {"a": "cleanup", "i": next(ids), "args": False, "body": [{"a": "read", "i": next(ids), "obj": obj, "attr": attr}]}
+                    acts = [rd(), {"a": "patch", "i": next(ids), "obj": obj, "attr": attr, "value": "first"}, rd(),
+                            {"a": "patch", "i": next(ids), "obj": obj, "attr": attr, "value": "second"}, rd(),
+                            {"a": "read", "i": next(ids), "obj": obj, "attr": attr}]
+                    if fault:
+                        acts.append({"a": "raise", "i": next(ids), "kind": fault})
+                    prog = {"decor": "none", "setUp_pre": [], "setUp_post": [], "body": [], "tearDown_pre": [], "tearDown_post": [],
+                            "handlers": [], "handlers_when": "init", "cells": 0}
+                    prog[where] = acts
+                    for flavour in ("ext", "real"):
+                        yield {"prog": prog, "runs": 2, "flavour": flavour}
+
+
 def subchecks(tier):
     q = tier == "quick"
     return [
         Sub("random_programs", run_case, CASE, 2000 if q else 60000),
+        Sub("double_patch_grid", run_case, enum=_enum_double_patch, enum_complete=True,
+            note="one attribute patched twice with reading cleanups before / between / after, x existing / None-valued / missing "
+                 "attribute x plain / slotted object x setUp / test method x no fault / error / KeyboardInterrupt, run twice"),
         Sub("registration_x_fault_grid", run_case, enum=_enum, enum_complete=True,
             note="6 registration sites x 8 fault sites x {error, KeyboardInterrupt, skip} x {cleanup, patch, fixture}, each run twice"),
     ]
